@@ -150,8 +150,22 @@ def inplace_sites():
         fname = os.path.basename(m.__file__)
         if mn.endswith('v1.loaders'):
             fname = 'v1/' + fname
+        def is_container(v):
+            if isinstance(v, (ast.Dict, ast.Set, ast.List, ast.DictComp, ast.SetComp, ast.ListComp)):
+                return True
+            return isinstance(v, ast.Call) and isinstance(v.func, ast.Name) and v.func.id in (
+                'set', 'dict', 'list', 'defaultdict', 'OrderedDict', 'deque', 'Counter', 'WeakKeyDictionary',
+                'WeakValueDictionary', 'WeakSet', 'frozenset')
+        # module-level containers, whatever their name looks like (a NEW table introduced by a change counts)
+        direct = {t.id for st in tree.body if isinstance(st, (ast.Assign, ast.AnnAssign))
+                  for t in (st.targets if isinstance(st, ast.Assign) else [st.target])
+                  if isinstance(t, ast.Name) and st.value is not None and is_container(st.value)}
+        direct |= {a.asname or a.name for st in tree.body if isinstance(st, ast.ImportFrom) for a in st.names
+                   if (a.asname or a.name).isupper() and st.module and st.module.endswith('class_helper')}
+        if mn.endswith('lookups'):
+            direct.add('environ')
         globs = {t.id for st in tree.body if isinstance(st, ast.Assign) for t in st.targets
-                 if isinstance(t, ast.Name) and t.id.isupper()}
+                 if isinstance(t, ast.Name) and t.id.isupper()} | direct
         globs |= {a.asname or a.name for st in tree.body if isinstance(st, ast.ImportFrom) for a in st.names
                   if (a.asname or a.name).isupper()}
         if mn.endswith('lookups'):
@@ -189,6 +203,24 @@ def inplace_sites():
                         recv, what = text(st.value.func.value), st.value.func.attr
                     elif isinstance(st, ast.Delete) and any(isinstance(t, ast.Subscript) and shared_expr(t.value) for t in st.targets):
                         recv, what = text(st.targets[0]), 'del'
+                    # ANY mutation of a module-level container named directly: item assignment, augmented
+                    # assignment, add / discard / setdefault / ... (not only bulk operations)
+                    if recv is None:
+                        def root(e):
+                            return e.id if isinstance(e, ast.Name) and e.id in direct else None
+                        tg = []
+                        if isinstance(st, ast.Assign):
+                            tg = [t for t in st.targets if isinstance(t, ast.Subscript)]
+                        elif isinstance(st, ast.AugAssign):
+                            tg = [st.target.value if isinstance(st.target, ast.Subscript) else st.target]
+                            tg = [ast.Subscript(value=t, slice=ast.Constant(0)) for t in tg]
+                        for t in tg:
+                            if root(t.value):
+                                recv, what = root(t.value), 'setitem'
+                        call = st.value if isinstance(st, (ast.Expr, ast.Assign)) and isinstance(getattr(st, 'value', None), ast.Call) else None
+                        if recv is None and call is not None and isinstance(call.func, ast.Attribute) and root(call.func.value) \
+                                and call.func.attr in MUTATORS | {'setdefault', 'discard'}:
+                            recv, what = root(call.func.value), call.func.attr
                     if recv is not None and not (k > 0 and is_yield(block[k - 1])):
                         out.append({'file': fname, 'line': st.lineno, 'function': fn.name, 'receiver': recv,
                                     'op': what, 'code': text(st)[:120]})
@@ -228,6 +260,21 @@ class World:
         from dataclass_wizard.models import CatchAll
         self.sc = sc
         self.sub = {}
+        # files of the scenario (secrets directories, dotenv files): '@name' in call kwargs is replaced by the path
+        self.paths = {}
+        if sc.get('files'):
+            import tempfile
+            root = tempfile.mkdtemp(prefix='c20_')
+            for d, files in (sc['files'].get('dirs') or {}).items():
+                os.makedirs(os.path.join(root, d))
+                for fn, txt in files.items():
+                    with open(os.path.join(root, d, fn), 'w') as f:
+                        f.write(txt)
+                self.paths['@' + d] = os.path.join(root, d)
+            for fn, txt in (sc['files'].get('dotenv') or {}).items():
+                with open(os.path.join(root, fn), 'w') as f:
+                    f.write(txt)
+                self.paths['@' + fn] = os.path.join(root, fn)
         for name, base in sc.get('subtypes', {}).items():
             ns = {}
             if base == 'object':   # dumped through default_dump_with = str(o): keep it address-free
@@ -325,7 +372,7 @@ class World:
             return asdict(o)
         if op == 'env':
             k = self.cls[c['cls']]
-            o = k(**c.get('kwargs', {}))
+            o = k(**{a: self.paths.get(v, v) if isinstance(v, str) else v for a, v in c.get('kwargs', {}).items()})
             return o.dict()
         raise ValueError(op)
 
